@@ -327,7 +327,10 @@ func hostile(r *vf.Run) {
 						name = "unknown"
 					}
 				} else {
-					name = "stream:" + tagClass(hc.tag)
+					mu.Lock()
+					config.DefConfig.P2PNode.NetworkMagic = bs[bi].Magic
+					name = streamName(hc.data, tagClass(hc.tag))
+					mu.Unlock()
 				}
 				w := hc.witness(bs[bi].Magic)
 				w["case_index"], w["batch"], w["death"], w["exit_code"], w["signal"], w["stderr_tail"] = d.LastIndex, bs[bi], d.Class+": "+d.Message, d.ExitCode, d.Signal, d.StderrTail
